@@ -370,6 +370,39 @@ func twoProofs(req wrapReq, resp *drv.Response) error {
 		resp.Violate("c02/two-proofs/honest-rejected", fmt.Sprintf("%s: two valid proofs verified with one chip: %s (%s)", req.Instance, out, firstLine(err)), nil)
 		return nil
 	}
+	if len(req.Ks) > 0 && req.Ks[0] == "key" {
+		// the second proof is presented with another verifier key: the digest changed, an entry selected by its queries changed
+		bb := data.Load(data.ByName(pair[1]), req.K)
+		g, err := geometry(bb)
+		if err != nil {
+			return err
+		}
+		for _, what := range []string{"digest+1", "digest=0", "selected-entry+1"} {
+			b := data.Load(data.ByName(pair[1]), req.K)
+			b.VD = detachVD(b.VD)
+			for _, lf := range data.Walk(&b.VD) {
+				var n int
+				isCap, _ := fmt.Sscanf(lf.Path, "ConstantSigmasCap[%d]", &n)
+				switch {
+				case what == "digest+1" && isCap == 0:
+					lf.Set(new(big.Int).Mod(new(big.Int).Add(lf.Get(), one), bigR))
+				case what == "digest=0" && isCap == 0:
+					lf.Set(big.NewInt(0))
+				case what == "selected-entry+1" && isCap == 1 && n == g.capIdx[0]:
+					lf.Set(new(big.Int).Mod(new(big.Int).Add(lf.Get(), one), bigR))
+				}
+			}
+			out, _ := run(b)
+			resp.Count(fmt.Sprintf("two/key/%s/%s", req.Instance, what), false)
+			if out == "accept" {
+				resp.Violate("c04/second-proof/key-accept what="+strings.Split(what, "+")[0],
+					fmt.Sprintf("%s k=%d: one verifier chip verifies the first proof and then the second presented with a different verifier key (%s): accepted", req.Instance, req.K, what),
+					map[string]any{"instance": req.Instance, "what": what})
+			}
+			resp.Sample(map[string]any{"pair": req.Instance, "second_proof_key": what, "outcome": out})
+		}
+		return nil
+	}
 	// one leaf per class first, then seeded ones
 	b0 := data.Load(data.ByName(pair[1]), req.K)
 	var paths []string
